@@ -147,6 +147,9 @@ impl<'c, E: TElemT> TInterp<'c, E> {
 
     pub fn exec(&mut self, op: &Op) -> Result<(), Bad> {
         let a = op.a;
+        if self.model.len() > self.case.h_or("size_cap", 3000) as usize && matches!(op.code, ops::FILL_TO_CAPACITY | ops::REHASH_SETUP | ops::RESERVE) {
+            return Ok(());
+        }
         match op.code {
             ops::INSERT_UNIQUE => {
                 let (id, hash) = self.key(a[0]);
@@ -872,7 +875,7 @@ impl<'c, E: TElemT> TInterp<'c, E> {
                 if p.downcast_ref::<Injected>().is_some() {
                     std::panic::resume_unwind(p);
                 }
-                std::mem::forget(p);
+                drop(p);
                 world::clear_panic_messages();
                 // a panic is legitimate only if two requests can resolve to the same entry
                 let mut can_alias = false;
@@ -1007,7 +1010,7 @@ impl<'c, E: TElemT> TInterp<'c, E> {
         match r {
             Err(payload) => {
                 let msg = world::last_panic_message().unwrap_or_else(|| "<no message>".into());
-                std::mem::forget(payload);
+                drop(payload);
                 return Err(Violation {
                     property: self.panic_prop,
                     kind: "unexpected-panic".into(),
@@ -1066,7 +1069,7 @@ impl<'c, E: TElemT> TInterp<'c, E> {
         let table = std::mem::replace(&mut self.table, Table::new_in(CheckAlloc));
         let r = catch_unwind(AssertUnwindSafe(move || drop(table)));
         if let Err(p) = r {
-            std::mem::forget(p);
+            drop(p);
             let msg = world::last_panic_message().unwrap_or_default();
             return (out, Some(Violation { property: self.panic_prop, kind: "unexpected-panic".into(), step, detail: format!("dropping the table panicked: {msg}") }));
         }
